@@ -12,10 +12,10 @@ def showStarts (xs : List (Nat × Int)) : String := joinC (xs.map fun (o, l) => 
 def showStartsO (xs : List (Nat × Option Int)) : String := joinC (xs.map fun (o, l) => s!"{o}:{showOptInt l}")
 def showRanges (xs : List (Nat × Nat × Option Int)) : String :=
   joinC (xs.map fun (s, e, l) => s!"{s}:{e}:{showOptInt l}")
-def showPos (xs : List (Option (Int × Int × Int × Int))) : String :=
+def showPos (xs : List (Option (Int × Int × Option Int × Option Int))) : String :=
   joinC (xs.map fun p => match p with
     | none => "N"
-    | some (a, b, c, d) => s!"{a}:{b}:{c}:{d}")
+    | some (a, b, c, d) => s!"{a}:{b}:{showOptInt c}:{showOptInt d}")
 def showUnitLines (xs : List (Option Int)) : String := joinC (xs.map showOptInt)
 
 /-- "o:l,o:l" -/
